@@ -1,5 +1,6 @@
 import OnetVerif.Model.Util
 import OnetVerif.Model.C20
+import OnetVerif.Model.C18Toml
 /-! Model for property C18: configuration files (`app/config.go`) from the decoded TOML structures
 onwards — private configuration → server identity (`LoadCothority`, `GetServerIdentity`,
 config.go:71-123), group definition → identities and roster (`ReadGroupDescToml`,
@@ -300,6 +301,52 @@ def getServerIdentity (suites : List Suite) (reg : List (Str × Suite)) (hc : Pr
                 mk (httpsPrefix ++ (C20.host hc.address).getD [] ++ 58 :: fmtInt (p + 1))
           else mk hc.url
 
+/-! ### from the text of a file to the decoded structures (`Model/C18Toml.lean`) and back -/
+
+/-- whether kyber accepts a key text as a point is an input: the texts in `bad` are the ones it rejects -/
+def keyOf (bad : List Str) (s : Str) : Key := { s := s, ok := !bad.contains s }
+
+def svcCfgOf (bad : List Str) (e : Toml.TSvc) : SvcCfg :=
+  { name := e.name, suite := e.suite, pub := keyOf bad e.pub, priv := e.priv }
+
+/-- decoded `ServerToml` (a nil `Services` map has no entries) -/
+def serverTomlOf (bad : List Str) (t : Toml.TServer) : ServerToml :=
+  { address := t.address, suite := t.suite, pub := keyOf bad t.pub, description := t.description, url := t.url,
+    services := (t.services.getD []).map (svcCfgOf bad) }
+
+/-- decoded `CothorityConfig` -/
+def privCfgOf (bad : List Str) (p : Toml.TPriv) : PrivCfg :=
+  { suite := p.suite, pub := keyOf bad p.pub, priv := p.priv, address := p.address, description := p.description,
+    url := p.url, wsKey := p.wsKey, services := (p.services.getD []).map (svcCfgOf bad) }
+
+/-- the `ServerToml` that `Group.Toml` builds, as the encoder sees it (the map is never nil) -/
+def tserverOf (t : ServerToml) : Toml.TServer :=
+  { address := t.address, suite := t.suite, pub := t.pub.s, description := t.description, url := t.url,
+    services := some (t.services.map fun c => { name := c.name, suite := c.suite, pub := c.pub.s, priv := c.priv }) }
+
+/-- `ReadGroupDescToml` from the text of the file -/
+def readGroupFile (suites : List Suite) (reg : List (Str × Suite)) (bad : List Str) (text : Str) :
+    Toml.PR (Res (List ServerId)) :=
+  match Toml.readGroupText text with
+  | .ok ts => .ok (readGroup suites reg (ts.map (serverTomlOf bad)))
+  | .err => .ok .err
+  | .unsup => .unsup
+
+/-- `LoadCothority` + `GetServerIdentity` from the text of the file -/
+def readPrivateFile (suites : List Suite) (reg : List (Str × Suite)) (bad : List Str) (text : Str) :
+    Toml.PR (Res ServerId) :=
+  match Toml.readPrivateText text with
+  | .ok p => .ok (getServerIdentity suites reg (loadCothority (privCfgOf bad p)))
+  | .err => .err                                   -- `LoadCothority` fails
+  | .unsup => .unsup
+
+/-- `Group.Save(suite, file)`: the text written for a group that was read -/
+def saveGroupText (S : Suite) (reg : List (Str × Suite)) (g : List ServerId) : Option Str :=
+  (writeGroup S reg g).map fun ts => Toml.emitGroup (ts.map tserverOf)
+
+/-- `LoadCothority` then `CothorityConfig.Save`: the text written -/
+def savePrivateText (p : Toml.TPriv) : Str := Toml.emitPrivate { p with suite := defaultSuite p.suite }
+
 /-! ### line-protocol driver -/
 namespace Drv
 
@@ -309,6 +356,7 @@ structure State where
   servers : List ServerToml := []
   lastPriv : Option PrivCfg := none     -- what the last `private` op loaded
   plain   : List Str := []              -- services registered without a suite by `regadd`
+  text    : Str := []                   -- the file of the last `text` op
 
 def init : State := {}
 
@@ -401,7 +449,7 @@ def step (s : State) (toks : List String) : State × String :=
     | none => (s, "bad-op")
   | ["text", t] =>
     match hx t with
-    | some _ => ({ s with servers := [] }, "ok")
+    | some t => ({ s with servers := [], text := t }, "ok")
     | none => (s, "bad-op")
   | ["server", a, su, p, ok, d, u, sv] =>
     match hx a, hx su, hx p, parseBool ok, hx d, hx u, parseSvcs sv with
@@ -453,6 +501,68 @@ def step (s : State) (toks : List String) : State × String :=
             | .panic => "panic")
       else (s, "bad-op")
     | _, _ => (s, "bad-op")
+  -- text-level ops: the model reads the text of the last `text` op itself.
+  -- `readtext <n> <child> <bad>` / `readprivtext <n> <child> <bad>`: ReadGroupDescToml / LoadCothority +
+  -- GetServerIdentity; `bad` = the key texts kyber rejects (`-`: none)
+  | ["readtext", n, ch, bad] =>
+    match n.toNat?, parseBool ch, (if bad = "-" then some [] else (bad.splitOn ",").mapM hx) with
+    | some _, some _, some bad =>
+      (s, match readGroupFile s.suites s.reg bad s.text with
+          | .ok r => showRes r
+          | .err => "err"
+          | .unsup => "unsupported")
+    | _, _, _ => (s, "bad-op")
+  | ["readprivtext", n, ch, bad] =>
+    match n.toNat?, parseBool ch, (if bad = "-" then some [] else (bad.splitOn ",").mapM hx) with
+    | some _, some _, some bad =>
+      (s, match readPrivateFile s.suites s.reg bad s.text with
+          | .ok (.ok si) => showGroup [si]
+          | .ok .err => "err"
+          | .ok .panic => "panic"
+          | .err => "load-err"
+          | .unsup => "unsupported")
+    | _, _, _ => (s, "bad-op")
+  -- `writetext <suite> <bad>`: the group read from the text is written with Group.Toml(suite) /
+  -- GroupToml.String: the emitted text, and what it reads as
+  | ["writetext", su, bad] =>
+    match hx su, (if bad = "-" then some [] else (bad.splitOn ",").mapM hx) with
+    | some su, some bad =>
+      match s.suites.find? (·.name == su) with
+      | none => (s, "bad-op")
+      | some S =>
+        match readGroupFile s.suites s.reg bad s.text with
+        | .ok (.ok []) => (s, showRes (.ok []))        -- no servers: `NewRoster` returns nil, nothing is written
+        | .ok (.ok g) =>
+          match saveGroupText S s.reg g with
+          | some txt =>
+            (s, "text=" ++ Util.hex txt ++ " " ++
+              (match readGroupFile s.suites s.reg bad txt with
+               | .ok r => showRes r
+               | .err => "err"
+               | .unsup => "unsupported"))
+          | none => (s, "panic")
+        | .ok .err => (s, "err")
+        | .ok .panic => (s, "panic")
+        | .err => (s, "err")
+        | .unsup => (s, "unsupported")
+    | _, _ => (s, "bad-op")
+  -- `savetext <bad>`: LoadCothority of the text, then CothorityConfig.Save: the emitted text and what it reads as
+  | ["savetext", bad] =>
+    match (if bad = "-" then some [] else (bad.splitOn ",").mapM hx) with
+    | some bad =>
+      match Toml.readPrivateText s.text with
+      | .ok p =>
+        let txt := savePrivateText p
+        (s, "text=" ++ Util.hex txt ++ " " ++
+          (match readPrivateFile s.suites s.reg bad txt with
+           | .ok (.ok si) => showGroup [si]
+           | .ok .err => "err"
+           | .ok .panic => "panic"
+           | .err => "load-err"
+           | .unsup => "unsupported"))
+      | .err => (s, "err")
+      | .unsup => (s, "unsupported")
+    | none => (s, "bad-op")
   -- `reload <n>`: the file the last `resave` wrote is read again (with the registry as it is now)
   | ["reload", n] =>
     match s.lastPriv, n.toNat? with
